@@ -22,7 +22,8 @@ func mix(seed uint64, xs ...uint64) uint64 {
 
 var tier0 = []string{"lists", "nonnull", "nulls", "typename", "aliases"}
 var tier1 = []string{"sub3", "valuetypes", "localtypes", "args", "variables", "errors", "fragments", "inlinefragments",
-	"lookups", "enums", "shareable", "manytypes", "deep", "dupfields"}
+	"lookups", "enums", "shareable", "manytypes", "deep", "dupfields", "interfaces", "requires", "interfacerequires",
+	"interfaceobjects", "duplists"}
 
 // KnobsFor picks the feature set of a configuration: a third of the configurations are simple,
 // a third medium, a third use everything that max allows ("start simple and grow").
@@ -236,6 +237,9 @@ type Features struct {
 	Requires, Provides   bool // the operation selects a @requires field / a field carrying @provides
 	Variables, Fragments bool
 	Directives, Aliases  bool
+	// IfaceRequires: a field selected ON an interface has @requires on some implementer;
+	// IfaceObjList: a list-of-objects field is selected ON an interface
+	IfaceRequires, IfaceObjList bool
 }
 
 func (c *Case) Features() Features {
@@ -284,6 +288,16 @@ func (c *Case) Features() Features {
 				if c.Cfg.RequiresOf(typ, s.Name) != "" {
 					f.Requires = true
 				}
+				if td.Kind == KInterface {
+					for _, p := range c.Cfg.Super.PossibleTypes(typ) {
+						if c.Cfg.RequiresOf(p, s.Name) != "" {
+							f.Requires, f.IfaceRequires = true, true
+						}
+					}
+					if fd.Type.IsList() && !c.Cfg.Super.IsLeaf(fd.Type.Base()) {
+						f.IfaceObjList = true
+					}
+				}
 				if provides[typ+"."+s.Name] {
 					f.Provides = true
 				}
@@ -311,9 +325,10 @@ func (c *Case) Features() Features {
 // Summary is the one-line case description used in cases files and evidence samples.
 func (c *Case) Summary(v *Verdict) string {
 	f := c.Features()
-	return fmt.Sprintf("(sum (subgraphs %d) (types %d) (fetches %d) (entityfetches %d) (abstract %s) (requires %s) (provides %s) (vars %s) (frags %s) (dirs %s) (aliases %s))",
+	return fmt.Sprintf("(sum (subgraphs %d) (types %d) (fetches %d) (entityfetches %d) (abstract %s) (requires %s) (provides %s) (vars %s) (frags %s) (dirs %s) (aliases %s) (ifacerequires %s) (ifaceobjlist %s))",
 		f.Subgraphs, f.Types, v.Fetches, v.EntityFetches, common.B(f.Abstract), common.B(f.Requires), common.B(f.Provides),
-		common.B(f.Variables), common.B(f.Fragments), common.B(f.Directives), common.B(f.Aliases))
+		common.B(f.Variables), common.B(f.Fragments), common.B(f.Directives), common.B(f.Aliases),
+		common.B(f.IfaceRequires), common.B(f.IfaceObjList))
 }
 
 func joinTrunc(xs []string, n int) string {
